@@ -63,13 +63,31 @@ def reset_fresh():
     _FRESH.clear()
 
 
+_STRICT_POLICY = [None]
+
+
+def strict_policy_file():
+    """a custom policy that is the default one WITHOUT the weight-only and the 4-bit dynamic-range entries (written to a scratch file:
+    the public API loads policies from files only)"""
+    if _STRICT_POLICY[0] is None:
+        import tempfile
+        from ai_edge_quantizer import default_policy
+        pol = json.loads(default_policy.DEFAULT_JSON_POLICY)
+        pol["ops_per_config"] = {k: v for k, v in pol["ops_per_config"].items() if not k.startswith("weightonly") and k != "dynamic_wi4_afp32"}
+        f = tempfile.NamedTemporaryFile("w", suffix="_strict_policy.json", delete=False)
+        json.dump(pol, f)
+        f.close()
+        _STRICT_POLICY[0] = f.name
+    return _STRICT_POLICY[0]
+
+
 def _register_policy(fname):
     import os
     from ai_edge_quantizer import algorithm_manager, default_policy, quantizer as qm
     if fname is None:
         pol = default_policy.DEFAULT_CONFIG_CHECK_POLICY
     else:
-        with open(os.path.join(os.path.dirname(qm.__file__), "policies", fname)) as f:
+        with open(fname if os.path.isabs(fname) else os.path.join(os.path.dirname(qm.__file__), "policies", fname)) as f:
             pol = default_policy.update_default_config_policy(f.read())
     algorithm_manager.register_config_check_policy_func(algorithm_manager.AlgorithmName.MIN_MAX_UNIFORM_QUANT, pol)
 
@@ -151,6 +169,8 @@ def oracle_c03(ctx, case, res, fail):
                 if mode == "none":
                     if cur.type != TT.FLOAT32:
                         return fail("unselected op reads/writes a non-float32 tensor: " + where, "noquant-dtype")
+                    if const and not is_out and tb != ta:
+                        return fail("constant operand of an unselected op was replaced by another tensor: " + where, "noquant-const-rewired")
                     if const and not is_out:
                         ob = bytes(np.asarray(mi.buffers[orig.buffer].data, dtype=np.uint8).tobytes())
                         src = go.tensors[tb]
